@@ -183,6 +183,8 @@ class World:
         out = None
         if k in ("set", "setitem", "setattr"):
             name, value, prio, replace = op["name"], op["value"], op.get("prio", ""), op.get("replace", True)
+            if value in BAD_VALUES or prio in BAD_PRIOS:
+                self.stats["fault:BAD_ARGUMENT"] += 1
             nname = normalize(name)
             if k == "set":
                 kk, v = lib.call(b.setProperty, name, value, prio, True, replace)
